@@ -1090,8 +1090,24 @@ func (a *Aff) headerInvariants(h *ssa.BasicBlock) []Con {
 						if cmp.Op == token.LEQ {
 							bound = ly.AddConst(1)
 						}
-						pre := h.Idom()
-						if pre != nil && a.Prove(pre, LE(ad.init.AddConst(off), bound)) {
+						// the bound holds on entry: at every forward predecessor of the header (the immediate
+						// dominator may lie before the test that establishes it)
+						entryOK, nEntry := true, 0
+						for _, pp := range h.Preds {
+							if h.Dominates(pp) {
+								continue
+							}
+							nEntry++
+							// ... including what the branch into the loop itself establishes
+							var edge []Con
+							if pif, ok := lastInstr(pp).(*ssa.If); ok && len(pp.Succs) == 2 && pp.Succs[0] != pp.Succs[1] {
+								edge = a.condCons(pif.Cond, pp.Succs[0] == h)
+							}
+							if !a.Prove(pp, LE(ad.init.AddConst(off), bound), edge...) {
+								entryOK = false
+							}
+						}
+						if nEntry > 0 && entryOK {
 							out = append(out, LE(ad.cur.AddConst(off), bound.AddConst(ad.step-1)))
 						}
 					}
